@@ -82,6 +82,7 @@ ObjWhy(d, o, node) ==
                chk(s) == LET m == DynOf(s) IN
                            IF m = None THEN "compact sub-object missing"
                            ELSE IF s <= Len(d.namelist) /\ m.name # d.namelist[s] THEN "compact sub-object name differs from the name list"
+                           ELSE IF s <= Len(d.namelist) /\ ~m.dotted THEN "lookup by 'Parent.Child' does not reach the named compact sub-object"
                            \* expanded members share data type, access type, PDO mapping, default value
                            \* and limits with the object description
                            ELSE IF m.dt # d.var.dt THEN "data type differs (compact sub-object)"
